@@ -107,6 +107,9 @@ ReqOptVals(c, FF) ==
       [] c \in {10, 65} -> CmReqOptVals [] c = 12 -> LbReqOptVals
 ReqFull(c, FF) == [k \in DOMAIN ReqMin(c) |-> IF k \in DOMAIN ReqOptVals(c, FF) THEN <<ReqOptVals(c, FF)[k]>> ELSE ReqMin(c)[k]]
 
+\* the full request with its required entities fully populated as well
+ReqRich(c, FF) == IF c = 1 THEN [ReqFull(1, FF) EXCEPT !.rp = RpFull, !.user = UserFull] ELSE ReqFull(c, FF)
+
 \* a decode2 case from a sent value
 SentCase(c, sv, tag, FF) ==
     [op |-> "decode2", tag |-> tag, c |-> c, sv |-> <<sv>>, wire |-> HostEncode(c, sv, FF)]
